@@ -498,7 +498,7 @@ SUBS = {
 
 def run(ctx):
     for name, fn in SUBS.items():
-        fn(ctx)
+        ctx.guarded(name, fn, ctx)
     monos = list(itertools.product(range(4), repeat=3))
     if ctx.thorough:
         derivs = list(itertools.product(range(4), repeat=3))
